@@ -32,6 +32,14 @@ def run(ctx):
         t = np.array([rng.uniform(-500, 500) for _ in range(3)])
         pts = [R @ p + t for p in pts]
         cases.append((phi, pts))
+    # boundary stream: the shortest bonds of the quantified range with |phi| near 0 and 180 degrees
+    for phi_deg in (-179.0, -175.0, -170.0, 170.0, 175.0, 179.0, 180.0, -5.0, -1.0, 0.0, 1.0, 5.0):
+        for lens in ((0.8, 0.8, 0.8), (0.95, 0.9, 0.85), (1.2, 0.8, 1.2), (2.5, 2.5, 2.5), (0.8, 2.5, 0.8)):
+            for angs in ((60.0, 60.0), (90.0, 90.0), (120.0, 60.0), (20.0, 160.0)):
+                pts = geo.build_dihedral(*lens, math.radians(angs[0]), math.radians(angs[1]), math.radians(phi_deg))
+                R = geo.random_rotation(rng)
+                t = np.array([rng.uniform(-50, 50) for _ in range(3)])
+                cases.append((math.radians(phi_deg), [R @ p + t for p in pts]))
     v2_sign_cases = 0
     exprs, meta = [], []
     for phi, pts in cases:
